@@ -1,6 +1,6 @@
 (* C06 - cancellation is final, contained, and safe against late responses.  Statements only. *)
 From Coq Require Import List Arith Bool.
-From Crux Require Import Rt.Lang Rt.Rt Rt.Host Rt.Check Rt.Frame Rt.Props Rt.Silent Rt.AbortTop.
+From Crux Require Import Rt.Lang Rt.Rt Rt.Host Rt.Check Rt.Frame Rt.Props Rt.Silent Rt.AbortTop Rt.Perm.
 Import ListNotations.
 
 (* Full statement (kept visible): after an abort / task abort / request drop, no output whose origin
@@ -40,6 +40,40 @@ Theorem C06_aborted_outputs_only_shrink_poll_next : forall X fuel cid w H r H',
   X < length (cmds H) -> was_aborted X H = true -> poll_next fuel cid w H = Some (r, H') ->
   is_suffix (c_eff (gcmd X H')) (c_eff (gcmd X H)) /\ is_suffix (c_evs (gcmd X H')) (c_evs (gcmd X H)).
 Proof. exact aborted_outputs_only_shrink_poll_next. Qed.
+
+(* Final, for a TASK aborted through its JoinHandle, and for a request dropped unresolved: through every
+   step of the runtime (settling or polling any command at any nesting level; for every fuel and heap) a
+   task's abort flag stays set, a task whose flag is set is never polled again (run_task answers Completed
+   without calling poll, so it can produce nothing more), the sending end of a dropped request stays closed
+   and the receiving end of a request whose future was dropped stays closed - so a late resolution of a
+   request that belonged to cancelled work is refused and changes nothing but the coverage log, now and
+   for ever.  (Rt/Perm.v: the frame principle instantiated with "what only ever moves one way".) *)
+Theorem C06_task_abort_permanent_settle : forall fuel cid H H' u,
+  settle fuel cid H = Some H' -> tf_abort (gtf u H) = true -> tf_abort (gtf u H') = true.
+Proof. intros fuel cid H H' u E. exact (pm_abort _ _ (perm_settle fuel cid H H' E) u). Qed.
+Theorem C06_task_abort_permanent_poll_next : forall fuel cid w H r H' u,
+  poll_next fuel cid w H = Some (r, H') -> tf_abort (gtf u H) = true -> tf_abort (gtf u H') = true.
+Proof. intros fuel cid w H r H' u E. exact (pm_abort _ _ (perm_poll_next fuel cid w H r H' E) u). Qed.
+Theorem C06_aborted_task_never_polled : forall F G cid slot H t,
+  slab_get slot (gcmd cid H) = Some t -> tf_abort (gtf (t_uid t) H) = true ->
+  rrun_task (step_funs F) cid slot H = Some (Completed, note B_AbortedBeforePoll H) /\
+  rrun_task (step_funs F) cid slot H = rrun_task (step_funs G) cid slot H.
+Proof. exact aborted_task_never_polled. Qed.
+Theorem C06_dropping_a_request_closes_it : forall tg v maps ch H,
+  ch_tx (gch ch (drop_req (mkEff tg v maps (ROnce ch)) H)) = false /\
+  ch_tx (gch ch (drop_req (mkEff tg v maps (RMany ch)) H)) = false.
+Proof. intros. unfold drop_req; cbn [e_res]. split; apply drop_tx_closes. Qed.
+Theorem C06_closed_ends_stay_closed_settle : forall fuel cid H H' ch,
+  settle fuel cid H = Some H' ->
+  (ch_tx (gch ch H) = false -> ch_tx (gch ch H') = false) /\ (ch_rx (gch ch H) = false -> ch_rx (gch ch H') = false).
+Proof. intros fuel cid H H' ch E. pose proof (perm_settle fuel cid H H' E) as P. split; [apply (pm_tx _ _ P) | apply (pm_rx _ _ P)]. Qed.
+Theorem C06_closed_ends_stay_closed_poll_next : forall fuel cid w H r H' ch,
+  poll_next fuel cid w H = Some (r, H') ->
+  (ch_tx (gch ch H) = false -> ch_tx (gch ch H') = false) /\ (ch_rx (gch ch H) = false -> ch_rx (gch ch H') = false).
+Proof. intros fuel cid w H r H' ch E. pose proof (perm_poll_next fuel cid w H r H' E) as P. split; [apply (pm_tx _ _ P) | apply (pm_rx _ _ P)]. Qed.
+Theorem C06_late_value_refused : forall ch v H,
+  ch_rx (gch ch H) = false -> chan_send ch v H = (false, note B_SendClosed H).
+Proof. exact send_to_closed_refused. Qed.
 
 (* The trace predicate that the check evaluates on the implementation holds of EVERY trace of the
    model: for every command, every schedule (late and repeated resolutions, drops, further aborts, tasks
